@@ -54,7 +54,7 @@ def _case(draw):
 
 def drivers(tier):
     th = tier == 'thorough'
-    return [dict(kind='hyp', name='conversions', strategy=_case(), examples=20000 if th else 3000)]
+    return [dict(kind='hyp', name='conversions', strategy=_case(), examples=50000 if th else 6000)]
 
 
 def add_extras(T, extras, n_clusters):
